@@ -141,7 +141,8 @@ def check(run, prog, tier):
     from ..util import Scan as _Scan
     with run.part("S9 generation state"):
         _sc = _Scan(prog)
-        for _cq in ("sd.ServiceSubscriber", "sd.ServiceInstance", "sd.ServiceDiscover"):
+        # (the find task of the discovery is not part of this chain: what it sends only speeds discovery up - C13)
+        for _cq in ("sd.ServiceSubscriber", "sd.ServiceInstance"):
             lifecycle_owner(run, prog, _sc, "S9", _cq)
 
     # ------------------------------------------------------------------ S7 start / stop of the stack reach every component
